@@ -77,6 +77,7 @@ class FaultRunner {
   bool fault_seen = false;   // at least one injected failure so far
   bool surfaced = false;     // some API call returned an error status after the injected failure
   uint64_t eligible_total = 0;
+  std::vector<std::string> eligible_class;
 
   void sched_cfg(const Op &op) {
     std::string s = op.get("sched", "eager");
@@ -327,6 +328,7 @@ class FaultRunner {
     if (db) { int cnt = 0; for (auto &p : cand) { check_read(db, p.first); if (++cnt > 30) break; } }
     surfacing_probe(db, plan);
     eligible_total = io_counters().eligible;
+    eligible_class = io_counters().eligible_class;
     io_counters_desc = fired() ? sfmt("%s (eligible call #%lld, errno %d%s)", io_counters().fired_desc.c_str(), (long long)io_counters().fired_at, plan.err,
                                       plan.persistent ? ", persistent" : plan.short_write ? ", short write" : ", one-shot")
                                : std::string("none reached");
@@ -338,6 +340,28 @@ class FaultRunner {
     if (db) { sched_call_begin(); ldb_close(db); sched_call_end(); db = nullptr; }
     sched_quiesce();
     opts.clear();
+    if (plan.at < 0) {
+      // classification of the history from lcdb's info log: did a memtable flush run inside a compaction (the only way two
+      // MANIFEST appends can follow each other with a background error in between)?
+      bool in_comp = false, nested = false;
+      for (const char *nm : {"/LOG.old", "/LOG"}) {
+        std::string lg;
+        if (!read_file(dir + nm, lg)) continue;
+        size_t pos = 0;
+        in_comp = false;
+        while (pos < lg.size()) {
+          size_t e = lg.find('\n', pos);
+          if (e == std::string::npos) e = lg.size();
+          std::string ln = lg.substr(pos, e - pos);
+          pos = e + 1;
+          if (getenv("VF_TRACE") && (ln.find("ompact") != std::string::npos || ln.find("Level-0") != std::string::npos)) fprintf(stderr, "LOG: %s\n", ln.c_str());
+          if (ln.find("Compacting ") != std::string::npos) in_comp = true;
+          else if (ln.find("Compacted ") != std::string::npos || ln.find("Recovering log") != std::string::npos) in_comp = false;
+          else if (in_comp && ln.find("Level-0 table #") != std::string::npos && ln.find("started") != std::string::npos) nested = true;
+        }
+      }
+      if (nested) rep->count("class.history_with_flush_inside_compaction");
+    }
     if (plan.at >= 0) {
       verify_reopened(dir, cfg, "after close and reopen");
       io_set_root(img);
@@ -497,6 +521,7 @@ int main(int argc, char **argv) {
       break;
     }
     uint64_t N = r.eligible_total;
+    std::vector<std::string> classes = r.eligible_class;
     r.cleanup();
     rep.count("histories");
     rep.count("eligible_calls_total", (long long)N);
@@ -505,7 +530,21 @@ int main(int argc, char **argv) {
     std::vector<uint64_t> sites;
     uint64_t rng = cs ^ 0x9e3779b9;
     if ((long)N <= max_sites) for (uint64_t k = 0; k < N; k++) sites.push_back(k);
-    else { std::set<uint64_t> s; while ((long)s.size() < max_sites) s.insert(splitmix(rng) % N); sites.assign(s.begin(), s.end()); }
+    else {
+      // half of the sample uniform over all calls, half stratified: a uniformly chosen (call, file class) stratum, then a
+      // uniformly chosen member, so that rare sites (a MANIFEST write, the CURRENT rename) are not drowned by log and table writes
+      std::set<uint64_t> s;
+      std::map<std::string, std::vector<uint64_t>> strata;
+      for (uint64_t k = 0; k < N && k < classes.size(); k++) strata[classes[k]].push_back(k);
+      std::vector<const std::vector<uint64_t> *> sv;
+      for (auto &q : strata) sv.push_back(&q.second);
+      while ((long)s.size() < max_sites / 2) s.insert(splitmix(rng) % N);
+      for (int tries = 0; (long)s.size() < max_sites && tries < max_sites * 20 && !sv.empty(); tries++) {
+        const std::vector<uint64_t> &st = *sv[splitmix(rng) % sv.size()];
+        s.insert(st[splitmix(rng) % st.size()]);
+      }
+      sites.assign(s.begin(), s.end());
+    }
     if ((long)N <= max_sites) rep.count("histories_with_every_site_explored");
     static const int errs[] = {ENOSPC, EIO, EMFILE, ENOENT};
     for (uint64_t k : sites) {
@@ -516,7 +555,9 @@ int main(int argc, char **argv) {
       uint64_t v = splitmix(rng);
       p.err = errs[(v >> 4) % ((v & 8) ? 2 : 4)];
       p.persistent = (v % 5) == 0;
-      p.short_write = (v % 7) == 1;
+      bool site_is_write = k < classes.size() && classes[k].compare(0, 6, "write.") == 0;
+      p.short_write = site_is_write ? (v % 7) < 3 : (v % 7) == 1;
+      if (p.short_write && site_is_write) p.persistent = (v % 35) == 0;
       std::string text = base + plan_line(p);
       g_current_text = text;
       if (!out.empty()) write_file(out + sfmt("/w%d.current.case", g_worker), text);
